@@ -178,7 +178,18 @@ void prop_c11(hz::Ctx &ctx) {
     bool nt = false; for (auto &o : it.ops) if (o.k == K_IMM || o.k == K_MEM || o.k == K_REL) nt = true; if (nt) ctx.nontrivial(id);
     MV v = check_noninterference(it);
     if (ctx.want_sample()) ctx.put_sample(text(it) + " -> " + (v.ok ? "identical under all 12 option combinations" : v.detail));
-    if (!v.ok) fail_mv(ctx, c, id, "non-interference", v);
+    if (!v.ok) { fail_mv(ctx, c, id, "non-interference", v); return; }
+    // the same line with an immediate the mov-immediate rules talk about (0x80000000..0xffffffff, beyond 32 bits, 16 written digits): whatever the
+    // library makes of it - it may well refuse it - is the same under every combination
+    for (size_t k = 0; k < it.ops.size(); k++) if (it.ops[k].k == K_IMM) {
+      static const uint64_t W[] = {0x80000000ULL, 0xffffffffULL, 0xfffffffeULL, 0x100000000ULL, 0x7fffffffffffffffULL, 0xffffffffffffffffULL, 0xffffffff80000000ULL, 5ULL, 0x7fffffffULL};
+      uint64_t h = hz::fnv(id); Intent w = it; w.ops[k].imm.v = W[h % 9]; w.ops[k].imm.neg = false; w.ops[k].imm.space = 64; w.ops[k].imm.hex = (h >> 4) % 3 != 0; w.ops[k].imm.pad = (h >> 6) % 3 == 0 ? 16 : (h >> 6) % 3 == 1 ? 0 : 9;
+      LineCase cw{w, DEFAULT_COMBO}; std::string idw = "N|" + serialize(cw); if (!ctx.begin(idw, text(w))) return;
+      ctx.cls("group:non-interference-wide-immediate"); ctx.nontrivial(idw);
+      MV vw = check_noninterference(w);
+      if (!vw.ok) fail_mv(ctx, cw, idw, "non-interference", vw);
+      break;
+    }
   });
 }
 
